@@ -180,14 +180,19 @@ func (h *hydrex) Save(ctx context.Context, indexName string, domain string, item
 
 	// iterating through the new items
 	for key, data := range items {
-		if _, ok := existingCoreData[key]; !ok {
+		// a key is (re)written when it is new or when its stored value differs from the one being saved
+		existing, ok := existingCoreData[key]
+		if !ok || existing.Value != data.Value {
 
-			// array for saving new items
+			// array for saving new and changed items
 			itemsForSave = append(itemsForSave, &CoreData{
 				Key:       key,
 				Value:     data.Value,
 				CreatedAt: time.Now(),
 			})
+
+		}
+		if !ok {
 
 			// save hydrex by this array
 			saveManyToManyReq = append(saveManyToManyReq, &hydraidego.CatalogManyToManyRequest{
